@@ -130,6 +130,7 @@ theorem curve_heat_irrelevant (hb kh hb' kh' cb βc kc c T : ℝ) :
 def KeptIsScored (key : Gen.ModelKey) (raw : List ℝ) (Tmin Tmax Tmins Tmaxs T : ℝ) : Prop :=
   ∃ s p v, keptSubmodel key raw Tmin Tmax Tmins Tmaxs = some s ∧ Model.predictSubmodel s T = some p
     ∧ scored key raw Tmin Tmax T = some v ∧ p.model = v
+    ∧ s.T_max = Tmax ∧ ∃ x, Effective s x ∧ NotWhole x s.T_max
 
 /-- closing lemma: the kept record reads back as `xk`, scoring evaluated `xs`, both obey the kernel's
 sign conventions, and their curves coincide -/
@@ -142,7 +143,7 @@ theorem close_case {key : Gen.ModelKey} {raw : List ℝ} {Tmin Tmax Tmins Tmaxs 
   have heff : Effective (sub cf Tmin Tmax Tmins Tmaxs) xk :=
     ⟨hfx, ak.ord, ak.βh0, ak.βc0, ak.kh0, ak.kc0, hint⟩
   have hnw : NotWhole xk (sub cf Tmin Tmax Tmins Tmaxs).T_max := ak.notWhole
-  refine ⟨_, _, curveR xs T, keptSubmodel_of hk, predict_refines heff hnw T, ?_, hcurve T⟩
+  refine ⟨_, _, curveR xs T, keptSubmodel_of hk, predict_refines heff hnw T, ?_, hcurve T, rfl, xk, heff, hnw⟩
   unfold scored
   rw [hsx]
   exact full_model_refines xs Tmin Tmax T as
